@@ -27,6 +27,7 @@ type output struct {
 	Assumptions []string      `json:"assumptions"`
 	Shard       int           `json:"shard"`
 	HasRace     bool          `json:"has_race"`
+	HasArch32   bool          `json:"has_arch32"`
 	WallS       float64       `json:"wall_s"`
 	Stats       explore.Stats `json:"stats"`
 }
@@ -44,6 +45,7 @@ func main() {
 	racePass := flag.Bool("racepass", false, "run the free-running bodies of the property (binary built with -race)")
 	unit := flag.String("unit", "", "run only the directly enumerated unit with this name (isolated sub-process mode)")
 	memLimit := flag.Uint64("rlimit-as", 16<<30, "address-space limit in bytes (0 = none)")
+	directOnly := flag.Bool("directonly", false, "run only the directly enumerated part (the GOARCH=386 pass)")
 	flag.Parse()
 	if *memLimit > 0 {
 		// a peer-declared length must never be able to take the sandbox down
@@ -142,6 +144,9 @@ func main() {
 		deadline = t0.Add(b)
 	}
 	r := explore.NewRunner(p.ID, *shard, *nshards, deadline, *replayDir)
+	if *directOnly {
+		p.Units = nil
+	}
 	if p.Direct != nil {
 		p.Direct(&checks.Ctx{R: r, Thorough: thorough})
 		if r.Stats.BoundCompleted < 0 && p.Units == nil && !r.Stats.TimedOut {
@@ -175,7 +180,7 @@ func main() {
 		r.Explore(units)
 	}
 	o := output{Property: p.ID, Level: p.Level, Technique: p.Technique, Rule: p.Rule, Assumptions: p.Assumptions,
-		Shard: *shard, HasRace: p.Race != nil, WallS: time.Since(t0).Seconds(), Stats: r.Stats}
+		Shard: *shard, HasRace: p.Race != nil, HasArch32: p.Arch32, WallS: time.Since(t0).Seconds(), Stats: r.Stats}
 	js, _ := json.Marshal(o)
 	if *out == "" {
 		os.Stdout.Write(js)
